@@ -68,6 +68,24 @@ theorem non_number_subscript_is_nothing (cv k : Val) (hk : indexLike k = false)
 example : indexLike (.str b!"abc") = false ∧ indexLike .nil = false ∧ indexLike (.bool true) = false ∧ indexLike (.str b!"1") = true := by
   refine ⟨?_, ?_, ?_, ?_⟩ <;> decide
 
+/-- **a map key is a text or a number, whatever its Go type** (D65): a subscript holding the
+    same text under a named string type, or the same integer under another integer type, reaches
+    the same entry as the plain key; an unsigned value beyond the range of the map's keys reaches
+    nothing — never an entry of another key. -/
+theorem map_key_by_value (ty : Bytes) (skvs : List (Bytes × Val)) (ikvs : List (Int64 × Val)) (k t : Bytes) (i : Int64) (u : UInt64) :
+    stepSub (.smap ty skvs) (.stringer (.str k) t) = stepSub (.smap ty skvs) (.str k) ∧
+    stepSub (.imap ty ikvs) (.stringer (.int i) t) = stepSub (.imap ty ikvs) (.int i) ∧
+    (u.toNat < 2 ^ 63 → stepSub (.imap ty ikvs) (.uint u) = stepSub (.imap ty ikvs) (.int (Int64.ofNat u.toNat))) ∧
+    (¬ u.toNat < 2 ^ 63 → stepSub (.imap ty ikvs) (.uint u) = .ok none) := by
+  refine ⟨rfl, rfl, ?_, ?_⟩ <;> intro h <;> simp [stepSub, h]
+
+/-- …and `in` asks the same question as the subscript: a key is in a map exactly when the
+    subscript finds an entry (pointers to keys followed once) -/
+theorem in_agrees_with_subscript (ty : Bytes) (skvs : List (Bytes × Val)) (ikvs : List (Int64 × Val)) (k : Bytes) (i : Int64) :
+    containsVal (.smap ty skvs) (.str k) = (skvs.lookup k).isSome ∧
+    containsVal (.smap ty skvs) (.ptr (.str k)) = (skvs.lookup k).isSome ∧
+    containsVal (.imap ty ikvs) (.int i) = (ikvs.lookup i).isSome := ⟨rfl, rfl, rfl⟩
+
 /-- indexing or naming into a scalar is an execution error, for every scalar and every step -/
 theorem scalar_steps_are_errors (v : Val)
     (hv : (∃ b, v = .bool b) ∨ (∃ i, v = .int i) ∨ (∃ u, v = .uint u) ∨ (∃ f, v = .float f)) (i : Int64) (k : Bytes) :
